@@ -25,7 +25,8 @@
 (*                   the entity is released before the poller saw a channel     *)
 (*                   (as found: polls for ever, 1 Hz)                           *)
 (*     SharedKept    stopping a collection closes only its own streams          *)
-(*                   (as found: every stream of the shared channel handler)     *)
+(*                   (repaired in /repo by c10d6e1; FALSE = every stream of the *)
+(*                   shared channel handler is closed)                          *)
 (*     JoinedStopped a collection that joined an already existing handler of    *)
 (*                   its physical channel is removed from it when it is stopped *)
 (*                   (as found: only the collection that created the handler is *)
@@ -215,7 +216,7 @@ Create(t, k, h) ==
     THEN /\ k = 0 /\ ~h                                      \* known id: answered with the id, nothing happens
          /\ UNCHANGED <<obsvars>>
          /\ Ghost("create", t, TRUE, FALSE, "")
-    ELSE /\ k \in 0..6 /\ (h => k = 0 /\ ~held[t])
+    ELSE /\ k \in 0..6 /\ (h => k = 0) /\ ~held[t]     \* (histories do not start a task again while its old registration is still pending)
          /\ CASE k \in {1, 2} ->
                    /\ UNCHANGED <<obsvars>>
               [] k = 3 ->                                      \* the position record stays behind (not C11's business)
@@ -260,7 +261,7 @@ Resume(t, k, h) ==
     ELSE LET guard == stored[t] \in {"Initial", "Paused"}
              fail == k # 0 \/ ~guard
              r0 == EnsureEntity(Res, a) IN
-         /\ k \in 0..3 /\ (h => ~fail /\ ~held[t])
+         /\ k \in 0..3 /\ (h => ~fail) /\ ~held[t]
          /\ IF k = 1
               THEN /\ UNCHANGED <<stored, mem, apiG, apiL, gset, gcnt, nck, skok>>
                    /\ SetRes(IF EntityGC /\ r0.ent[a] = 0 THEN Release(r0, a) ELSE r0)
